@@ -14,6 +14,8 @@
    proved here and compared with the implementation under a counting allocator is the ownership protocol, the
    null-on-failure behaviour and the allocation counts. *)
 From Coq Require Import ZArith.
+(* EidText first: its `validate` (of an EID) is shadowed by Model.Validate.validate (of a bundle) below *)
+From BP7 Require Import Model.EidText.
 From BP7 Require Import Base.Prelude Gen.Consts Model.Types Model.Encode Model.Decode Model.Wf Model.Validate Model.DtnTime Model.Ffi.
 From BP7 Require Import Proofs.FfiProofs.
 
@@ -48,9 +50,9 @@ Theorem C14_agrees_with_rust_api : forall m s k b, fget s k = Some (BundleCell b
   /\ fstep m s (Payload k) = (fpush s (BufferCell (payload b)), RHandle (fresh s), buffer_allocs (payload b))
   /\ fstep m s (ToCbor k) = (fpush (fset s k (BundleCell (snd (to_cbor b)))) (BufferCell (Some (fst (to_cbor b)))),
                             RHandle (fresh s), 2%Z)
-  /\ (has_nul (ffi_eid_print (p_src (b_primary b))) || has_nul (ffi_eid_print (p_dst (b_primary b))) = false ->
+  /\ (has_nul (eid_print (p_src (b_primary b))) || has_nul (eid_print (p_dst (b_primary b))) = false ->
       fstep m s (GetMetadata k) =
-        (fpush s (MetaCell (ffi_eid_print (p_src (b_primary b))) (ffi_eid_print (p_dst (b_primary b)))
+        (fpush s (MetaCell (eid_print (p_src (b_primary b))) (eid_print (p_dst (b_primary b)))
                            (p_time (b_primary b)) (p_seq (b_primary b)) (p_lifetime (b_primary b))),
          RHandle (fresh s), 3%Z)).
 Proof. exact queries_agree. Qed.
